@@ -251,6 +251,15 @@ def readIndex (st : Store) (parent sel : Val) : R Val :=
 
 -- SetNumberValue -------------------------------------------------------------------------------
 
+
+/-- a selector on an atom (`recv[idx]` where `recv` is no variable): as `readIndex`, except that the "is not an array nor
+    map" branch of ExpressionAtom.Evaluate builds its message from `e.Variable`, which is nil there — a nil dereference,
+    recovered at the rule boundary like any panic -/
+def readSel (st : Store) (parent sel : Val) : R Val :=
+  match readIndex st parent sel with
+  | .error (.eval m) => if m == "is not an array nor map" then panicErr "nil pointer dereference" else .error (.eval m)
+  | r => r
+
 def f32round (bits : UInt64) : UInt64 := (Float.ofBits bits).toFloat32.toFloat.toBits
 
 def srcBase : Val → Option (SrcBase × Opd)
